@@ -757,6 +757,9 @@ func main() {
 			kind := "unrestricted/side-mutant-then-reorg"
 			if w.vars[vi].H != idR13 && w.vars[vi].Class == 0 {
 				kind = "guarded/side-valid-sibling-then-reorg"
+				if name == "height" || name == "parent" {
+					kind = "guarded/side-refused-header-then-reorg" // never executed: wrong height / unknown parent
+				}
 			}
 			d := cat(g.genuine(seq(1, 13)...), g.genuine(idR12), [][2]int{{vi, pp[0]}})
 			if g.r.Chance(2, 3) {
@@ -772,6 +775,9 @@ func main() {
 			kind := "unrestricted/heavy-side-mutant"
 			if w.vars[vi].Class == 0 {
 				kind = "guarded/heavy-side-valid-sibling"
+				if name == "height" || name == "parent" {
+					kind = "guarded/heavy-side-refused-header"
+				}
 			}
 			run(kind, cat(g.genuine(seq(1, 13)...), g.genuine(idS12), [][2]int{{vi, pp[0]}, {w.gvar[idS13], pp[1]}}, g.genuine(idS14, 14)))
 		}
